@@ -600,5 +600,51 @@ Section ValidText.
           apply ptw_then_free; [apply twin_datums|]. intros o. destruct o; [apply psx0_pret|apply psx0_err]. }
         apply (H _ _ (init_sprel inp) init_okr I).
     Qed.
+
+    (* whatever a call returns, the str reader is still inside W *)
+    Lemma okr_after_call fuel s : okr W (rd s) ->
+      okr W (rd (snd (next_value fuel s))) /\ okr W (rd (snd (next_datum fuel s))).
+    Proof.
+      intros (Hi & Hk & Ha).
+      pose proof (proj1 (pos_values W ro alpha fast std_parse fuel) s) as P1.
+      pose proof (proj1 (pos_datums W ro alpha fast std_parse fuel) s) as P2.
+      pose proof (proj1 (psat_values Rrk Rrk_ret Rrk_seq Rrk_fuel rk_peek rk_next rk_eat rk_error rk_peek_error rk_error_consume
+                     rk_take_run rk_take_symbol fast std_parse ro alpha Rrk_rec1 Rrk_rec2 fuel) s) as K1.
+      pose proof (proj1 (psat_datums Rrk Rrk_ret Rrk_seq Rrk_fuel rk_peek rk_next rk_eat rk_error rk_peek_error rk_error_consume
+                     rk_take_run rk_take_symbol fast std_parse ro alpha Rrk_rec1 Rrk_rec2 fuel) s) as K2.
+      pose proof (proj1 (psat_values Rab Rab_ret Rab_seq Rab_fuel ab_peek ab_next ab_eat ab_error ab_peek_error ab_error_consume
+                     ab_take_run ab_take_symbol fast std_parse ro alpha Rab_rec1 Rab_rec2 fuel) s) as A1.
+      pose proof (proj1 (psat_datums Rab Rab_ret Rab_seq Rab_fuel ab_peek ab_next ab_eat ab_error ab_peek_error ab_error_consume
+                     ab_take_run ab_take_symbol fast std_parse ro alpha Rab_rec1 Rab_rec2 fuel) s) as A2.
+      unfold Rpos, Rrk, Rab in *. split; (split; [|split]).
+      - apply (P1 Hi).
+      - rewrite K1. exact Hk.
+      - apply A1. exact Ha.
+      - apply (P2 Hi).
+      - rewrite K2. exact Hk.
+      - apply A2. exact Ha.
+    Qed.
+
+    (* iterating: the items read from a str and from the slice of the same text *)
+    Theorem twin_iterate fuel n : forall s1 s2, sprel s1 s2 -> okr W (rd s1) ->
+      iterate_values ro alpha fast std_parse fuel n s1 = iterate_values ro alpha fast std_parse fuel n s2 /\
+      iterate_datums ro alpha fast std_parse fuel n s1 = iterate_datums ro alpha fast std_parse fuel n s2.
+    Proof.
+      induction n as [|n IH]; intros s1 s2 Hs Ho; [split; reflexivity|].
+      cbn [iterate_values iterate_datums].
+      destruct (proj1 (twin_values fuel) s1 s2 Hs Ho I) as [Ev Hv]. destruct (proj1 (twin_datums fuel) s1 s2 Hs Ho I) as [Ed Hd].
+      destruct (okr_after_call fuel s1 Ho) as [Ov Od].
+      split.
+      - destruct (next_value fuel s1) as [[[v1|]|e1] s1']; destruct (next_value fuel s2) as [[[v2|]|e2] s2']; cbn [fst snd] in *; try discriminate;
+          try reflexivity; inversion Ev; subst; f_equal; apply (IH s1' s2' Hv Ov).
+      - destruct (next_datum fuel s1) as [[[v1|]|e1] s1']; destruct (next_datum fuel s2) as [[[v2|]|e2] s2']; cbn [fst snd] in *; try discriminate;
+          try reflexivity; inversion Ed; subst; f_equal; apply (IH s1' s2' Hd Od).
+    Qed.
+    Theorem valid_text_iterate n :
+      iterate_values ro alpha fast std_parse (fuel_for (bytes_events W)) n (init_state SrcStr (bytes_events W)) =
+      iterate_values ro alpha fast std_parse (fuel_for (bytes_events W)) n (init_state SrcSlice (bytes_events W)) /\
+      iterate_datums ro alpha fast std_parse (fuel_for (bytes_events W)) n (init_state SrcStr (bytes_events W)) =
+      iterate_datums ro alpha fast std_parse (fuel_for (bytes_events W)) n (init_state SrcSlice (bytes_events W)).
+    Proof. apply twin_iterate; [apply init_sprel|apply init_okr]. Qed.
   End Values.
 End ValidText.
